@@ -132,7 +132,12 @@ def gen_cases(rng, tier):
         w = (0.5, 0.12, 0.13, 0.25)
         cfg["turns"] = [G.gen_turn(rng, cfg, k + 1, w, w, p_retr=0.15) for k in range(rng.choice([2, 3, 4]))]
         cfg["turns"].append(G.clean_turn(rng, cfg, len(cfg["turns"]) + 1))
+        if rng.random() < 0.4:
+            G.collapse_texts(rng, cfg, p_bot=0.5, p_user=0.4)  # the texts after a fault repeat earlier ones
         cases.append(cfg)
+    # a fault after the rails' variables were set, then texts that repeat the visible / the hidden / an earlier rejected one
+    # (user text and LLM text together), see pipeline_cases.REPEAT_PATTERNS
+    cases.extend(G.repeat_cases(rng, tier, "both", patterns=[G.REPEAT_PATTERNS[i] for i in (0, 1, 2, 5)] if tier == "quick" else None))
     return G.sort_cases(cases)
 
 
